@@ -21,7 +21,8 @@ RULE = ('elevation rasters 1x1 .. 7x7 of every dtype uint8..uint64/int8..int64/f
         'small integers with ties, random floats, values >= 2^24, NaN/+-inf cells; cell size from res = scalar / (x,y) tuple / '
         'list / ndarray / unusable / absent with ascending or descending, integer or fractional coordinates, cx != cy; '
         'hillshade azimuth/altitude grids; the same stream Dask-backed (every dtype x single chunk / 1-cell chunks / uneven '
-        'chunks, results computed and compared exactly like the NumPy ones); plus, on the implementation, the property\'s metamorphic checks: constant offset, '
+        'chunks, results computed and compared exactly like the NumPy ones; groups of 12 lazy results — four functions x '
+        '(raster, same raster with another cell size / other angles, poked raster) — evaluated in ONE dask.compute); plus, on the implementation, the property\'s metamorphic checks: constant offset, '
         'single-cell poke (to NaN or another value), quarter turn with square cells. A case is non-trivial when the raster has '
         'at least one interior cell; distinct by JSON encoding.')
 TRUSTED = [
@@ -692,6 +693,47 @@ def run_case(ctx, m, consts, case, pending, meta=True):
         metamorphic(ctx, m, case, outs, params)
 
 
+def run_together(ctx, m, consts, case, pending):
+    """several lazy Dask results (all four functions x 2-3 variants: same raster with another cell size / other angles,
+    and another raster) evaluated in ONE dask.compute; each compared with the oracle, its NumPy-backed result and the model"""
+    import dask
+    rng = ctx.rng
+    v0 = dict(case, params=dict(azimuth=rng.choice(AZ), altitude=rng.choice(ALT)))
+    r0 = case['res']
+    if r0['kind'] == 'pair':
+        res2 = dict(kind='pair', v=[r0['v'][1] * 2.0, r0['v'][0] * 0.5], form='tuple')
+    else:
+        res2 = dict(kind='pair', v=[4.0, 0.5], form='tuple')
+    v1 = dict(case, res=res2, params=dict(azimuth=rng.choice(AZ), altitude=rng.choice(ALT)))
+    variants = [v0, v1]
+    rows, cols = len(case['data']), len(case['data'][0])
+    d2 = [list(r) for r in case['data']]
+    d2[rng.randrange(rows)][rng.randrange(cols)] = gen_value(rng, case['dtype'], 'small')
+    variants.append(dict(case, data=d2, params=v0['params']))
+    lazies = []
+    try:
+        for v in variants:
+            agg = make_agg(v)
+            for fn in FNS:
+                lazies.append((v, fn, run_fn(m, fn, agg, v['params'])))
+        with np.errstate(all='ignore'):
+            outs = dask.compute(*[r.data for _, _, r in lazies])
+    except Exception as e:
+        ctx.violation('oracle', 'lazy results in one dask.compute raised %s: %s' % (type(e).__name__, e), dict(case, together=True))
+        return
+    for (v, fn, _), o in zip(lazies, outs):
+        out = to_lists(o)
+        n0 = len(ctx.violations)
+        oracle_raster(ctx, v, fn, out, v['params'])
+        alone = to_lists(run_fn(m, fn, make_agg(dict(v, chunks=None)), v['params']).data)
+        if any(not eq_out(a, b) for ra, rb in zip(out, alone) for a, b in zip(ra, rb)):
+            ctx.violation('oracle', '%s: differs from the NumPy-backed result' % fn, dict(v, fn=fn))
+        for x in ctx.violations[n0:]:
+            x['what'] = '[one of %d lazy results computed in ONE dask.compute] %s' % (len(lazies), x['what'])
+            x['replay'] = dict(case, together=True, fn=fn)
+        pending.append((model_line(v, fn, consts, v['params']), [c for r in out for c in r], dict(v, together=True), fn, v['params']))
+
+
 def new_case(rng, **kw):
     dt, kind, data = gen_raster(rng, **kw)
     rows = len(data)
@@ -742,6 +784,13 @@ def run(ctx, model=True):
         ctx.count('%s%s/%s/res=%s%s' % ('dask:' if case.get('chunks') is not None else '', case['dtype'], case['kind'],
                                         case['res'].get('form', case['res']['kind']), '+coords' if case['coords'] else ''))
         run_case(ctx, m, consts, case, pending)
+    # lazy results of several functions / parameters / rasters evaluated in one graph
+    for _ in range(6 if ctx.quick() else 300):
+        c = new_case(rng, shape=(rng.randint(3, 5), rng.randint(3, 5)))
+        c['chunks'] = gen_chunks(rng, len(c['data']), len(c['data'][0]), rng.choice(styles))
+        ctx.case(dict(c, together=True))
+        ctx.count('dask-together:%s/%s' % (c['dtype'], c['kind']))
+        run_together(ctx, m, consts, c, pending)
     if model:
         compare_model(ctx, pending)
     ctx.exhaustive = False
@@ -775,6 +824,13 @@ def replay_case(ctx, case):
         case.pop('params', None)
     ctx.case(case)
     pending = []
+    if case.pop('together', None):
+        for _ in range(6):
+            run_together(ctx, m, consts, dict(case), pending)
+            if ctx.violations:
+                break
+        compare_model(ctx, pending[:12])
+        return
     for _ in range(12):          # the metamorphic step draws its kind / position from the rng
         run_case(ctx, m, consts, case, pending, meta=True)
         if ctx.violations:
